@@ -209,6 +209,29 @@ def sim_part(tier, rng, drv, res, monitors_on=("ticker", "device_order"), corr=(
             SC.check_run(fs, run, drv, res, monitors_on=monitors_on, corr=corr, case_extra={"bus": b, "held_seed": sd})
 
 
+def divided_chain_part(drv, res):
+    """fixed shapes from a configuration FILE divided so that every wire crosses the division: a chain (and a chain through a
+    system simulation) whose every other component is hosted with the scheduler, the rest by a second simulation on the same
+    bus - the scheduler orders updates by the WHOLE configuration's wiring, whoever hosts what"""
+    from .c07 import dev
+    P = 2_000_000
+    chain = [dev("n0", cb={"kind": "period", "p": P}, cost=10_000), dev("n1", {"i": ["n0", "o"]}, cost=200_000), dev("n2", {"i": ["n1", "o"]}, cost=10_000),
+             dev("n3", {"i": ["n2", "o"]}, cost=200_000), dev("n4", {"i": ["n3", "o"], "j": ["n0", "o"]}, cost=10_000)]
+    through = [dev("m0", cb={"kind": "period", "p": P}, cost=10_000),
+               {"name": "msys", "kind": "sys", "inputs": {"x": ["m0", "o"]}, "expose": {"y": ["mi", "o"]}, "components": [dev("mi", {"i": ["external", "x"]}, cost=150_000)]},
+               dev("m2", {"i": ["msys", "y"]}, cost=10_000), dev("m3", {"i": ["m2", "o"], "j": ["m0", "o"]}, cost=100_000)]
+    for si, comps in enumerate((chain, through)):
+        tops = [c["name"] for c in comps]
+        for flip in (0, 1):
+            a, b = tops[flip::2], tops[1 - flip::2]
+            scn = {"components": comps, "t0": 0, "n_ticks": 4, "from_file": [{"scheduler": True, "components": a}, {"scheduler": False, "components": b}]}
+            for bus in ("sync", "held", "internal"):
+                run = run_scenario(scn, bus=bus, seed=si + flip)
+                res.case(f"divided-chain:{si}:{flip}:{bus}", nontrivial=True)
+                res.count("from-config-file-divided-chain")
+                SC.check_run(scn, run, drv, res, monitors_on=("ticker", "device_order", "initial_tick"), corr=("ticker",), case_extra={"bus": bus, "held_seed": si + flip})
+
+
 def midtick_part(tier, rng, drv, res):
     """interrupts that land in the MIDDLE of a (nested) tick, at every loop step of it: a quiet device whose dependant is
     also fed by a device that is updated in that tick, while an unrelated slow branch keeps the tick open.  Whatever the
@@ -243,6 +266,7 @@ def run(tier, seed, drv):
     direct_part(tier, rng, drv, res)
     sim_part(tier, rng, drv, res)
     midtick_part(tier, rng, drv, res)
+    divided_chain_part(drv, res)
     res.rule = ("(a) the real Ticker driven directly through its public API: all DAGs on 2-3 nodes (sampled on 4-5), up to 6 root sets each, two "
                 "output-change tables, answer orders enumerated by DFS (bounded per configuration); (b) generated flat and nested simulations "
                 "(depth <= 3) + corpus, each under the synchronous bus and two seeded delaying-bus schedules; every Ticker's call/propagate sequence is "
